@@ -16,3 +16,4 @@ driver("drv_expect", variant="plain")
 driver("drv_mathvec", variant="asan")
 driver("drv_timefmt", variant="plain")
 driver("drv_textenc", variant="asan")
+driver("drv_hash", variant="asan")
